@@ -30,7 +30,7 @@ def main():
         if t["cxx"] == "clang++" and "fuzzer" not in t["flags"]:
             t["flags"] = cov
             t["link_flags"] = cov + (" -pthread" if "threads/" in str(t["srcs"]) else "")
-    vbuild.COMMON = "-g -O0 -DTROMPELOEIL_SANITY_CHECKS -Wno-deprecated-declarations -pthread"
+    vbuild.COMMON = "-g -O0 -Wno-deprecated-declarations -pthread"
     exes, cmds = {}, []
     for prop, spec in vprops.PROPS.items():
         for job in spec["jobs"]:
